@@ -238,8 +238,9 @@ func checkC01(c *Ctx, w *World) {
 
 // lookupRules: the bound-key lookup (getReadySubConnRef) and its use by getSubConnRef. Shared by C01 (a bound key
 // goes home) and C02 (a key that is NOT in the key table is load-balanced: it must never be reported as known).
-func lookupRules(pl *pool, grs, gsr *ssa.Function, R func(string) string) {
+func lookupRules(pl *pool, grs, gsr *ssa.Function, R func(string) string, strict ...bool) {
 	c, p := pl.c, pl.p
+	lookupAlways := len(strict) > 0 && strict[0]
 	// ---- C01.lookup (getReadySubConnRef)
 	key := grs.Params[1]
 	isHome := func(v ssa.Value) bool { // the connection the key is bound to
@@ -321,6 +322,10 @@ func lookupRules(pl *pool, grs, gsr *ssa.Function, R func(string) string) {
 			c.check(imp, R("C01.bound-first"), "getSubConnRef: least-busy selection", p.ipos(call), "load-based selection only for calls without a key or with an unknown key", "a bound key can be load-balanced regardless of its binding: "+wit)
 		}
 		imp, wit := scs.Implies(scs.Reach(g), scs.Not(scs.Atom("keyEmpty")))
+		if lookupAlways && imp {
+			// (fallback stickiness) no shortcut may serve a keyed call without consulting — and updating — the balancer's tables
+			imp, wit = scs.EquivStrict(scs.Reach(g), scs.Not(scs.Atom("keyEmpty")))
+		}
 		c.check(imp && g.Call.Args[1] == ssa.Value(gsr.Params[1]), R("C01.bound-first"), "getSubConnRef: bound lookup", p.ipos(g), "every non-empty key is looked up first, with the caller's key", "bound lookup skipped or performed with another key: "+wit)
 		for i, r := range returnsOf(gsr) {
 			if mayPrecede(g, r) {
